@@ -296,7 +296,7 @@ func (r *rules) snap() snap {
 	for _, k := range r.W.D.Rows() {
 		s.rows[k.SEID] += k.String() + " "
 	}
-	s.all = r.W.V.Dump(pfcp.DumpOpt{NoTrans: true}) + r.W.D.Dump()
+	s.all = r.W.V.Dump(pfcp.DumpOpt{NoTrans: true, NoExtra: true}) + r.W.D.Dump()
 	return s
 }
 
